@@ -27,6 +27,18 @@ CLAIMED = {
     'C08': dict(
         text="Seeded request/response/time-advance/reconfigure sequences over a small name set. A request completed without any transmission is a cache hit; its markers identify the cached response, and a reference model (key, rcode/TC filter, whole-second freshness against min(max_ttl, own TTLs or SOA minimum), flush on membership change/reinit) decides whether the hit was allowed and which TTLs it may show through record, legacy and addrinfo APIs.",
         ref="5 C08", tech=TECH + "reference cache model over recorded history, virtual clock stepping across expiry seconds", note=NOTE_COMMON + " A pure reorder of the server list is treated as ambiguous (not required to flush)."),
+    'C09': dict(
+        text="Per-attempt server behaviour (answer, silence, SERVFAIL/NOTIMP/REFUSED, FORMERR with/without OPT, reset) is a keyed hash of (seed, server, question, attempt), with outages, recoveries and server-list edits as generated steps. A reference failover model is driven by the public server-state callback stream and the list-edit history; every first transmission of a query must go to a server the model allows (lowest failure count, list order as tie-break, or a due probe of a failed server under the configured retry chance/delay; rotate cycles), every resend after a failure must move on while another server is available, and a response that is not one of the defined failures must reset the server's count.",
+        ref="5 C09", tech=TECH + "reference failover model over the recorded transmission and server-state history", note=NOTE_COMMON + " Failure counts are observed only through ares_set_server_state_callback and the wire; TCP transmissions are not judged."),
+    'C12': dict(
+        text="Generated resolv.conf-style configuration (search lists up to the limit, ndots 0..15, duplicate and root domains, ARES_FLAG_NOSEARCH/NOALIASES, HOSTALIASES in a virtual file) and names with 0..n dots, trailing dots and lengths up to the 255-octet limit; per-candidate zone outcomes (NXDOMAIN, NODATA, SERVFAIL, timeout, answer) are a keyed hash. A reference walk produces the allowed candidate sequences (set-valued where the statement is silent); the sequence of distinct question names seen at the virtual servers and the final status/answer provenance must be one of them.",
+        ref="5 C12", tech=TECH + "reference search walk compared with the question sequence recorded at the virtual network", note=NOTE_COMMON),
+    'C13': dict(
+        text="ares_getaddrinfo/ares_gethostbyname under AF_INET/AF_INET6/AF_UNSPEC with per-family outcomes (answer, CNAME chains, NODATA, NXDOMAIN, SERVFAIL, silence, truncation), hosts-file entries in a virtual file, lookups order 'bf'/'fb', and loss/duplication/reordering between the A and AAAA sub-queries. Every address carries a marker naming the packet or hosts line it came from; the delivered multiset of addresses, their families, TTL bounds, the canonical name/alias chain and the status must equal what the reference combination of the two sub-answers allows.",
+        ref="5 C13", tech=TECH + "address-multiset oracle against a reference combination of per-family sub-answers", note=NOTE_COMMON + " An IPv4 literal looked up with AF_INET6 is not judged (legacy behaviour outside the statement)."),
+    'C17': dict(
+        text="Virtual servers implement RFC 7873 server behaviour in ten modes (no cookie support, echo, strict BADCOOKIE, rotating secrets, regression to no-cookie and back, malformed lengths, wrong client cookie echoes). A per-(channel, server) reference model of the client state machine is fed every transmission and every reply the library read: client cookie stable while source address and server are unchanged and regenerated when they change, server cookie echoed exactly as last validly learned, replies with a missing/mismatched client cookie dropped once support was seen, at most the allowed consecutive BADCOOKIE resends before TCP, and fall back to cookie-less operation within the regression period on a virtual clock.",
+        ref="5 C17", tech=TECH + "RFC 7873 reference state machine over recorded transmissions/reads under a virtual clock", note=NOTE_COMMON),
     'C10': dict(
         text="The virtual socket layer never reuses descriptor numbers and logs every call: any call or close on a closed/never-opened descriptor, a leaked or doubly closed socket, a UDP socket over its per-socket query limit, a socket-state notification outside the descriptor's lifetime, a missing/duplicate final (0,0), an open socket the application was not told to watch (read; write while a connect or partial write is pending), and any disagreement between ares_fds/ares_getsock and the open set is a violation, under per-call socket faults, TFO, failing socket callbacks, cancels and reconfiguration.",
         ref="5 C10", tech=TECH + "call-protocol automaton over the virtual kernel's call log and callback streams", note=NOTE_COMMON),
